@@ -703,17 +703,22 @@ func coveringSites(fr *Frame, evs []hev) map[ssa.Instruction]bool {
 			out[e.ev.Site] = true
 			continue
 		}
-		for f := e.ev.Fr; f != nil; f = f.Parent {
-			if f.Parent == fr && f.Call != nil {
+		for f := e.ev.Fr; f != nil; {
+			up := f.Parent
+			if f.Call == nil && firstErrorStep(f) != nil {
+				up = f.Via
+			}
+			if up == fr && entrySite(f) != nil {
 				children[f] = append(children[f], e)
 				break
 			}
+			f = up
 		}
 	}
 	for c, sub := range children {
 		in := coveringSites(c, sub)
 		if len(in) > 0 && mustPass(c.Fn, func(i ssa.Instruction) bool { return in[i] }) {
-			out[c.Call] = true
+			out[entrySite(c)] = true
 		}
 	}
 	return out
